@@ -355,8 +355,10 @@ Definition content (s : state) : Prop :=
 Definition fits (s : state) (len : Z) : Prop := 0 <= len <= N - 1 - (Wv s - Rv s).
 Definition copied (s : state) (m : msg) (c : Z) : Prop :=
   forall i, 0 <= i < c -> zn (buf s) ((Wv s + i) mod N) = zn m i.
+(* len is what the encoder / rtosc_message_length reported for m: its length,
+   or 0 when it is longer than MaxMsg *)
 Definition wlen (m : msg) (len : Z) : Prop :=
-  okmsg m /\ (len = 0 \/ (len = zlen m /\ len <= MM)).
+  okmsg m /\ ((len = 0 /\ MM < zlen m) \/ (len = zlen m /\ len <= MM)).
 Definition wcore (s : state) (m : msg) (len nw : Z) : Prop :=
   wlen m len /\ fits s len /\ nw = (Wv s + len) mod N.
 
